@@ -121,8 +121,9 @@ class ChildRunLogging(ProcessRun):
     then the queue is closed (its feeder flushes everything before the process exits -- trusted)."""
     prop = 'C20'
     variant = 'logging'
-    ignore_calls = ('root.setLevel', 'logging.captureWarnings', 'sys.stderr.write', 'traceback.print_exc')
+    ignore_calls = ('logging.captureWarnings', 'sys.stderr.write', 'traceback.print_exc')
     canaries = (
+        ('child filters records by a level of its own', 'root.setLevel(logging.DEBUG)', 'root.setLevel(logging.WARNING)', 'level'),
         ('handler removed before the target runs', '        self._mpservice_exitcode_ = 0\n', '        self._mpservice_exitcode_ = 0\n        if qh is not None:\n            logging.getLogger().removeHandler(qh)\n', 'installed before'),
         ('queue never closed by the child', '                logger_queue.close()', '                pass', ''),
     )
@@ -136,7 +137,16 @@ class ChildRunLogging(ProcessRun):
         st.ghost['events'] = ()
         ev = lambda name: (lambda e, s, a, k, n: (lambda s2: (s2.ghost.__setitem__('events', s2.ghost['events'] + (name,)), [('ok', s2, NONE)])[1])(s.fork()))
         self.has_handlers = z3.Bool('root_has_handlers')
-        root = Rec(ex, 'root', methods={'hasHandlers': Fn(lambda e, s, a, k, n: [('ok', s, self.has_handlers)]), 'setLevel': Nop(),
+        st.ghost['root_level'] = fresh('child_root_level_before')
+
+        def set_level(e, s, a, k, n):
+            s = s.fork()
+            s.ghost['root_level'] = box(e, a[0])
+            s.ghost['events'] = s.ghost['events'] + ('setLevel',)
+            return [('ok', s, NONE)]
+        for nm, lv in (('DEBUG', 10), ('INFO', 20), ('WARNING', 30), ('ERROR', 40), ('NOTSET', 0)):
+            ex.globals['logging.' + nm] = z3.IntVal(lv)
+        root = Rec(ex, 'root', methods={'hasHandlers': Fn(lambda e, s, a, k, n: [('ok', s, self.has_handlers)]), 'setLevel': Fn(set_level),
                                         'addHandler': Fn(ev('addHandler')), 'removeHandler': Fn(ev('removeHandler'))})
         ex.globals['logging.getLogger'] = Fn(lambda e, s, a, k, n: [('ok', s, root)])
         self.logq.methods['close'] = Fn(ev('queue.close'))
@@ -160,10 +170,12 @@ class ChildRunLogging(ProcessRun):
                 ex.oblige(s, 'exit: run() never raises', False)
                 continue
             evs = s.ghost['events']
-            fwd = ('addHandler', 'target', 'removeHandler', 'queue.close')
+            fwd = ('setLevel', 'addHandler', 'target', 'removeHandler', 'queue.close')
             nofwd = ('queue.close', 'target')
             ex.oblige(s, 'exit: log forwarding is installed before the target runs and removed only after it ended, then the queue is closed (or, if logging is already configured in the child, the queue is closed at once)',
                       z3.If(self.has_handlers, z3.BoolVal(evs == nofwd), z3.BoolVal(evs == fwd)))
+            ex.oblige(s, 'exit: the child itself filters nothing -- its root level is DEBUG (a constant, not a copy of some parent setting) before the handler is installed, so every record reaches the parent, whose level settings alone decide',
+                      z3.Or(self.has_handlers, s.ghost['root_level'] == V.intv(z3.IntVal(10))))
 
 
 class StartUnit(Unit):
